@@ -105,8 +105,15 @@ def judge(ctx, judge_name, terms, tag, shard=None):
     # 0.2 ms): spread the cases over 16 coqc processes
     if shard is None:
         shard = max(40, -(-len(terms) // 16))
-    bad, nt, err = ctx.judge_cases(HEADER, "wg_case", judge_name, terms, shard=shard,
+    # one evaluation gives the verdict (0/1/2) and, times 3, the cross-check of the two
+    # formulations of the C01 monitor (streaming c01_ok vs per-call c01_decl)
+    comb = "(fun c => %s c + 3 * mon_agree c)" % judge_name
+    bad, nt, err = ctx.judge_cases(HEADER, "wg_case", comb, terms, shard=shard,
                                    nontrivial="wg_nontrivial", tag=tag, timeout=1500)
+    disagree = [i for i, c in bad if c >= 3]
+    if disagree:
+        ctx.cov["monitor_cross_check_disagreements"] = ctx.cov.get("monitor_cross_check_disagreements", 0) + len(disagree)
+    bad = [(i, c % 3) for i, c in bad if c % 3]
     return bad, nt, err
 
 
@@ -295,6 +302,20 @@ def run_check(ctx, pid):
     if err:
         ctx.report({"unchecked": "harness run", "detail": err}, {"kind": "harness"}, failing_input=False)
         return
+    # corpus files (minimised past failures of either gsync property) are replayed first
+    cands = []
+    for d in ("C01", "C02"):
+        cdir = os.path.join(vlib.VERIF, "corpus", d)
+        for n in sorted(os.listdir(cdir)) if os.path.isdir(cdir) else []:
+            if n.endswith(".json"):
+                c = json.load(open(os.path.join(cdir, n)))
+                cands.append((c["progs"], c["sched"]))
+    cterms, cjsons = replay_batch(ctx, binp, cands, "corpusfile")
+    for t, j in zip(cterms, cjsons):
+        if t:
+            j["kind"] = "corpus-file"
+            terms.insert(0, t)
+            jsons.insert(0, j)
     ctx.log("harness: %d cases in %.1fs" % (len(terms), time.time() - t0))
     t0 = time.time()
     bad, nt, err = judge(ctx, judge_name, terms, "cases")
@@ -322,6 +343,7 @@ def run_check(ctx, pid):
     # report failing inputs: smallest first, minimised
     fails.sort(key=lambda ic: (jsons[ic[0]]["preemptions"], len(jsons[ic[0]]["sched"]), ic[0]))
     shapes = set()
+    reported = set()
     for i, code in fails:
         j = jsons[i]
         feat = features(j, code, pid)
@@ -332,12 +354,21 @@ def run_check(ctx, pid):
         shapes.add(shape)
         if ctx.nreplay < 3:
             j = minimise(ctx, binp, judge_name, j)
+        key = json.dumps([j["progs"], j["sched"]])
+        if key in reported:
+            ctx.violations.append("(not written)")
+            continue
+        reported.add(key)
         rep = {"case": view(j), "replay_input": {"progs": j["progs"], "sched": j["sched"]},
                "verdict": "the trace recorded from the real code violates the %s monitor (%s)" % (
                    pid, "c01_ok" if pid == "C01" else "c02_ok / WaitTimeout probe"),
                "expected": "c01_ok = true" if pid == "C01" else "c02_ok = true and WaitTimeout probe = (nil iff sum of deltas = 0)",
                "replay_cmd": "./check %s --replay <this file>" % pid}
         ctx.report(rep, features(j, code, pid), failing_input=True)
+    if ctx.cov.get("monitor_cross_check_disagreements"):
+        ctx.report({"unchecked": "cross-check of the two formulations of the C01 monitor (c01_ok vs c01_decl) on the recorded traces",
+                    "detail": "%d traces judged differently" % ctx.cov["monitor_cross_check_disagreements"]},
+                   {"kind": "monitor_cross_check"}, failing_input=False)
     if not fails:
         for i, code in diffs[:2]:
             j = jsons[i]
